@@ -8,7 +8,7 @@ isolated copy of /verif, VERIF_REPO), and record the outcome in seeded/<id>/meta
 import concurrent.futures, glob, json, os, re, subprocess, sys, time
 
 V = os.path.dirname(os.path.dirname(os.path.abspath(__file__)))
-EXTRA = {"C20": ["C04"], "C13": ["C14"], "C03": ["C18"], "C15": ["C13"], "C19": ["C04", "C02", "C14"], "C02": ["C01"], "C07": ["C08"], "C17": ["C15", "C04"],
+EXTRA = {"C20": ["C04"], "C13": ["C14"], "C03": ["C18", "C05"], "C15": ["C13"], "C19": ["C04", "C02", "C14"], "C02": ["C01"], "C07": ["C08"], "C17": ["C15", "C04"],
          "C06": ["C17"], "C05": ["C17"]}
 
 
